@@ -18,22 +18,17 @@ fn same(a: &IncrementalEvalFields, b: &IncrementalEvalFields) -> bool {
 fn show(pre: &Pre, w: u16) { println!("REPLAY-CASE {{\"fen\":\"{}\",\"move\":\"{}\"}}", pos::fen_of(&pre.p), pos::move_text(w)); }
 
 /// any valid position of reachable material, accumulators == recomputation before => == after make_move; undo restores
-#[kani::proof]
-#[kani::unwind(66)]
-pub fn c15_make_step() {
+pub fn make_step(kind: usize, side: u8) {
     load();
-    let (pre, mut g) = step::any_pre();
+    let (pre, mut g, w, m) = step::any_case(kind, side);
     kani::assume(pos::legal_material(&pre.p));
-    let (w, m) = step::any_legal(&pre.p);
     #[cfg(test)] show(&pre, w);
     g.incremental_eval = IncrementalEvalFields::init(&g.board);
     let e0 = g.incremental_eval.clone();
     g.make_move(move_of(w));
     let fresh = IncrementalEvalFields::init(&g.board);
     assert!(same(&g.incremental_eval, &fresh));
-    kani::cover!(m.ep);
-    kani::cover!(m.castle);
-    kani::cover!(pos::raw_promo(w) != 0 && m.capture);
+    kani::cover!(m.capture || m.castle);
     g.undo_move();
     assert!(same(&g.incremental_eval, &e0));
     std::mem::forget(g);
